@@ -378,7 +378,12 @@ pub fn hot_keys(r: &mut Rng, axis: &[f64], n: usize, faults: &Faults, f32ok: boo
             2 => next_up(axis[i]),
             3 => next_down(axis[i]),
             4 => *r.pick(&[lo, hi]),
-            5 => *r.pick(&[lo - 1.0, hi + 1.0, lo - 1e-9 * (1.0 + lo.abs()), hi + 1e6, next_down(lo), next_up(hi), lo - 2.5 * (hi - lo), hi + 3.25 * (hi - lo)]),
+            5 => {
+                // outside the range: far, near, and just outside at several relative distances
+                let span = hi - lo;
+                let eps = *r.pick(&[1e-12, 1e-9, 1e-7, 1e-5, 1e-3]);
+                *r.pick(&[lo - 1.0, hi + 1.0, lo - 1e-9 * (1.0 + lo.abs()), hi + 1e6, next_down(lo), next_up(hi), lo - 2.5 * span, hi + 3.25 * span, lo - eps * span, hi + eps * span, lo - eps * span, hi + eps * span])
+            }
             6 => *r.pick(&[f64::NAN, f64::INFINITY, f64::NEG_INFINITY, -0.0, 0.0, 5e-324, -2.2250738585072014e-308]),
             _ => lo + (hi - lo) * r.unit(),
         };
@@ -493,8 +498,18 @@ fn gen_call(r: &mut Rng, sc: &SlotCtx, faults: &Faults, mode: Mode) -> Call {
                 let mut xs: Vec<f64> = vec![];
                 let mut ys: Vec<f64> = vec![];
                 let mut tries = 0;
+                // since the stub's values carry the callback index, repeated query values are
+                // attributable too: a third of the batches may repeat elements (runs of equal values)
+                let allow_dup = r.chance(1, 3);
                 while xs.len() < n {
                     tries += 1;
+                    if allow_dup && !xs.is_empty() && r.chance(1, 2) {
+                        let j = if r.chance(2, 3) { xs.len() - 1 } else { r.below(xs.len()) };
+                        let (x, y) = (xs[j], ys[j]);
+                        xs.push(x);
+                        ys.push(y);
+                        continue;
+                    }
                     let x = if tries < 40 && r.chance(2, 3) { *r.pick(&sc.keys_x) } else { sc.lo_hi_x.0 + (sc.lo_hi_x.1 - sc.lo_hi_x.0) * (r.unit() * 1.5 - 0.25) };
                     let y = if !sc.two { 0.0 } else if tries < 40 && r.chance(2, 3) { *r.pick(&sc.keys_y) } else { sc.lo_hi_y.0 + (sc.lo_hi_y.1 - sc.lo_hi_y.0) * (r.unit() * 1.5 - 0.25) };
                     let dup = xs.iter().zip(ys.iter()).any(|(a, b)| canon(a.to_bits()) == canon(x.to_bits()) && canon(b.to_bits()) == canon(y.to_bits()));
